@@ -152,9 +152,91 @@ fn violation_json(v: &Violation) -> Value {
 }
 
 /// Run one unit in this process and print `RESULT <json>`
-fn worker(plan: Plan, unit_idx: usize, shard: (usize, usize), deadline: Option<Instant>, known: Vec<String>) -> i32 {
+fn emit(out_path: &Option<PathBuf>, v: &Value) {
+    match out_path {
+        Some(p) => {
+            if let Err(e) = std::fs::write(p, v.to_string()) {
+                eprintln!("cannot write {}: {e}", p.display());
+            }
+        }
+        None => println!("RESULT {v}"),
+    }
+}
+
+/// child side of `Job::confirm`: run one schedule, report its fingerprint
+fn confirm_child(plan: Plan, unit_idx: usize, file: &Path, por: bool, out_path: Option<PathBuf>) -> i32 {
     let Some(unit) = plan.units.into_iter().nth(unit_idx) else {
-        println!("RESULT {}", json!({"machinery": format!("no unit {unit_idx}")}));
+        emit(&out_path, &json!({"error": format!("no unit {unit_idx}")}));
+        return 2;
+    };
+    let UnitKind::Explore(job) = unit.kind else {
+        emit(&out_path, &json!({"error": "not an exploration unit"}));
+        return 2;
+    };
+    let choices = std::fs::read_to_string(file)
+        .ok()
+        .and_then(|t| serde_json::from_str::<Value>(&t).ok())
+        .map(|v| choices_from_json(&v))
+        .unwrap_or_default();
+    let mut cfg = job.cfg.clone();
+    cfg.por = por;
+    let r = crate::run_one(&cfg, &job.body, &choices);
+    let fp = if r.divergence.is_some() { format!("divergence: {:?}", r.divergence) } else { crate::explore::fingerprint(&r) };
+    emit(&out_path, &json!({"fingerprint": fp}));
+    // the execution may have been abandoned: leave without running destructors of leaked state
+    0
+}
+
+fn make_confirm(property: &'static str, tier: String, unit_idx: usize) -> crate::explore::Confirm {
+    Arc::new(move |choices: &[Choice], por: bool| {
+        let exe = std::env::current_exe().map_err(|e| e.to_string())?;
+        let dir = verif_root().join("target").join("units");
+        let _ = std::fs::create_dir_all(&dir);
+        let base = dir.join(format!("confirm-{}-{}", std::process::id(), unit_idx));
+        let inp = base.with_extension("in.json");
+        let out = base.with_extension("out.json");
+        std::fs::write(&inp, choices_json(choices).to_string()).map_err(|e| e.to_string())?;
+        let _ = std::fs::remove_file(&out);
+        let mut child = Command::new(exe)
+            .arg(property)
+            .arg(&tier)
+            .arg("--unit")
+            .arg(unit_idx.to_string())
+            .arg("--confirm")
+            .arg(&inp)
+            .arg("--por")
+            .arg(if por { "1" } else { "0" })
+            .arg("--out")
+            .arg(&out)
+            .stdout(Stdio::null())
+            .stderr(Stdio::null())
+            .spawn()
+            .map_err(|e| e.to_string())?;
+        let started = Instant::now();
+        loop {
+            match child.try_wait() {
+                Ok(Some(_)) => break,
+                Ok(None) if started.elapsed() > Duration::from_secs(120) => {
+                    let _ = child.kill();
+                    let _ = child.wait();
+                    return Err("confirmation replay did not finish in 120 s".into());
+                }
+                Ok(None) => std::thread::sleep(Duration::from_millis(5)),
+                Err(e) => return Err(e.to_string()),
+            }
+        }
+        let txt = std::fs::read_to_string(&out).map_err(|e| format!("no result from confirmation replay: {e}"))?;
+        let _ = std::fs::remove_file(&inp);
+        let _ = std::fs::remove_file(&out);
+        let v: Value = serde_json::from_str(&txt).map_err(|e| e.to_string())?;
+        v["fingerprint"].as_str().map(|s| s.to_string()).ok_or_else(|| format!("bad confirmation result {v}"))
+    })
+}
+
+fn worker(plan: Plan, tier: &str, unit_idx: usize, shard: (usize, usize), deadline: Option<Instant>, known: Vec<String>, out_path: Option<PathBuf>) -> i32 {
+    let property = plan.property;
+    let Some(unit) = plan.units.into_iter().nth(unit_idx) else {
+        emit(&out_path, &json!({"machinery": format!("no unit {unit_idx}")}));
         return 2;
     };
     let started = Instant::now();
@@ -163,6 +245,7 @@ fn worker(plan: Plan, unit_idx: usize, shard: (usize, usize), deadline: Option<I
             job.shard = shard;
             job.deadline = deadline;
             job.known = known;
+            job.confirm = Some(make_confirm(property, tier.to_string(), unit_idx));
             match explore(&job) {
                 JobEnd::Done(st) => json!({"kind": "explore", "stats": stats_json(&st)}),
                 JobEnd::Violation(st, v) => json!({"kind": "explore", "stats": stats_json(&st), "violation": violation_json(&v)}),
@@ -178,7 +261,7 @@ fn worker(plan: Plan, unit_idx: usize, shard: (usize, usize), deadline: Option<I
         }
     };
     let code = if out.get("machinery").is_some() { 2 } else { 0 };
-    println!("RESULT {}", out);
+    emit(&out_path, &out);
     code
 }
 
@@ -222,6 +305,9 @@ pub fn run_property(args: &[String], planner: &dyn Fn(&str) -> Plan) -> i32 {
     let mut shard = (0usize, 1usize);
     let mut deadline = None;
     let mut known_arg: Vec<String> = vec![];
+    let mut out_path: Option<PathBuf> = None;
+    let mut confirm_file: Option<PathBuf> = None;
+    let mut confirm_por = false;
     let mut i = 1;
     while i < args.len() {
         match args[i].as_str() {
@@ -239,6 +325,18 @@ pub fn run_property(args: &[String], planner: &dyn Fn(&str) -> Plan) -> i32 {
                 deadline = args.get(i + 1).and_then(|s| s.parse::<u64>().ok()).map(|s| Instant::now() + Duration::from_secs(s));
                 i += 1;
             }
+            "--confirm" => {
+                confirm_file = args.get(i + 1).map(PathBuf::from);
+                i += 1;
+            }
+            "--por" => {
+                confirm_por = args.get(i + 1).map(|s| s == "1").unwrap_or(false);
+                i += 1;
+            }
+            "--out" => {
+                out_path = args.get(i + 1).map(PathBuf::from);
+                i += 1;
+            }
             "--known" => {
                 known_arg = args.get(i + 1).map(|s| s.split(',').filter(|x| !x.is_empty()).map(|x| x.to_string()).collect()).unwrap_or_default();
                 i += 1;
@@ -249,8 +347,14 @@ pub fn run_property(args: &[String], planner: &dyn Fn(&str) -> Plan) -> i32 {
     }
     crate::init();
     let plan = planner(&tier);
+    if let (Some(u), Some(f)) = (unit_idx, &confirm_file) {
+        let code = confirm_child(plan, u, f, confirm_por, out_path);
+        // never unwind / drop anything that an abandoned execution may have leaked
+        std::process::exit(code);
+    }
     if let Some(u) = unit_idx {
-        return worker(plan, u, shard, deadline, known_arg);
+        let code = worker(plan, &tier, u, shard, deadline, known_arg, out_path);
+        std::process::exit(code);
     }
     master(plan, &tier)
 }
@@ -259,6 +363,8 @@ struct Running {
     child: std::process::Child,
     unit: usize,
     shard: (usize, usize),
+    out: PathBuf,
+    kill_at: Instant,
 }
 
 fn master(plan: Plan, tier: &str) -> i32 {
@@ -283,6 +389,8 @@ fn master(plan: Plan, tier: &str) -> i32 {
     }
     work.reverse();
     let total_units = work.len();
+    let tmpdir = verif_root().join("target").join("units").join(format!("{property}-{}", std::process::id()));
+    let _ = std::fs::create_dir_all(&tmpdir);
     let mut running: Vec<Running> = Vec::new();
     let mut results: Vec<(usize, (usize, usize), Value)> = Vec::new();
     let mut machinery: Vec<String> = Vec::new();
@@ -290,6 +398,7 @@ fn master(plan: Plan, tier: &str) -> i32 {
         while running.len() < workers {
             let Some((u, sh)) = work.pop() else { break };
             let remaining = cap_secs.saturating_sub(started.elapsed().as_secs()).max(5);
+            let out = tmpdir.join(format!("u{u}-s{}.json", sh.0));
             let child = Command::new(&exe)
                 .arg(property)
                 .arg(tier)
@@ -301,11 +410,19 @@ fn master(plan: Plan, tier: &str) -> i32 {
                 .arg(remaining.to_string())
                 .arg("--known")
                 .arg(&known_list)
-                .stdout(Stdio::piped())
+                .arg("--out")
+                .arg(&out)
+                .stdout(Stdio::inherit())
                 .stderr(Stdio::inherit())
                 .spawn()
                 .expect("spawn worker");
-            running.push(Running { child, unit: u, shard: sh });
+            running.push(Running {
+                child,
+                unit: u,
+                shard: sh,
+                out,
+                kill_at: Instant::now() + Duration::from_secs(remaining + 300),
+            });
         }
         if running.is_empty() {
             break;
@@ -318,14 +435,24 @@ fn master(plan: Plan, tier: &str) -> i32 {
                 break;
             }
         }
+        if finished.is_none() {
+            // a worker far beyond its deadline is stuck (that is a machinery fault, never a verdict)
+            if let Some(i) = running.iter().position(|r| Instant::now() > r.kill_at) {
+                let mut r = running.remove(i);
+                let _ = r.child.kill();
+                let _ = r.child.wait();
+                machinery.push(format!("unit {} shard {:?}: worker overran its deadline by 300 s and was killed", plan.units[r.unit].name, r.shard));
+                continue;
+            }
+        }
         match finished {
             None => std::thread::sleep(Duration::from_millis(5)),
             Some(i) => {
-                let r = running.remove(i);
-                let out = r.child.wait_with_output().expect("worker output");
-                let text = String::from_utf8_lossy(&out.stdout);
-                let line = text.lines().rev().find(|l| l.starts_with("RESULT "));
-                match line.and_then(|l| serde_json::from_str::<Value>(&l[7..]).ok()) {
+                let mut r = running.remove(i);
+                let status = r.child.wait().expect("worker status");
+                let text = std::fs::read_to_string(&r.out).unwrap_or_default();
+                let _ = std::fs::remove_file(&r.out);
+                match serde_json::from_str::<Value>(&text).ok() {
                     Some(v) => {
                         if let Some(m) = v.get("machinery") {
                             machinery.push(format!("unit {} shard {:?}: {}", plan.units[r.unit].name, r.shard, m));
@@ -333,17 +460,17 @@ fn master(plan: Plan, tier: &str) -> i32 {
                         results.push((r.unit, r.shard, v));
                     }
                     None => machinery.push(format!(
-                        "unit {} shard {:?}: worker died without a result (status {:?}); last output: {}",
+                        "unit {} shard {:?}: worker died without a result (status {:?})",
                         plan.units[r.unit].name,
                         r.shard,
-                        out.status,
-                        text.lines().rev().take(3).collect::<Vec<_>>().join(" | ")
+                        status
                     )),
                 }
             }
         }
     }
     results.sort_by_key(|r| (r.0, r.1));
+    let _ = std::fs::remove_dir_all(&tmpdir);
 
     // ---- merge
     let mut states = 0u64;
